@@ -161,7 +161,7 @@ impl RtpsWriterProxy {
         // from the RTPS Writer with SequenceNumber_t smaller than or equal to a_change.sequenceNumber that have status MISSING or UNKNOWN.
 
         max(
-            self.first_available_seq_num - 1,
+            self.first_available_seq_num.saturating_sub(1),
             self.highest_received_change_sn,
         )
     }
@@ -198,7 +198,7 @@ impl RtpsWriterProxy {
         // In between those two numbers, every change that is not RECEIVED or IRRELEVANT is MISSING
         let first_missing_change = max(
             self.first_available_seq_num,
-            self.highest_received_change_sn + 1,
+            self.highest_received_change_sn.saturating_add(1),
         );
         first_missing_change..=highest_number
     }
@@ -282,7 +282,10 @@ impl RtpsWriterProxy {
                 true,
                 reader_guid.entity_id(),
                 self.remote_writer_guid().entity_id(),
-                SequenceNumberSet::new(self.available_changes_max() + 1, missing_changes),
+                SequenceNumberSet::new(
+                    self.available_changes_max().saturating_add(1),
+                    missing_changes,
+                ),
                 self.acknack_count(),
             );
 
